@@ -197,7 +197,7 @@ def create_property(hfile, name, dtype, data, definition=None, unit=None):
     prop.attrs["entity_id"] = nix.util.create_id()
     prop.attrs["created_at"] = nix.util.time_to_str(nix.util.now_int())
     prop.attrs["updated_at"] = nix.util.time_to_str(nix.util.now_int())
-    if definition:
+    if definition is not None:
         prop.attrs["definition"] = definition
     if unit:
         prop.attrs["unit"] = unit
